@@ -1,2 +1,71 @@
-(* C15_Spec.v — placeholder, replaced below *)
+(* C15_Spec.v — what the property text asks for, stated without reference to how http2.go is coded.
+
+   L2 (bytes -> frames, per direction).  The frames handed to the stream layer must depend on the BYTES
+   of the direction only, not on how they were cut into Read/Write calls:
+        feeding the chunks one by one  =  feeding their concatenation at once.
+   `ft_feed` is the chunk-by-chunk use of the tracer that Read/Write make.
+
+   L1 (the caller's view).  `transparent_res` relates an op to what the caller must get back: exactly the
+   inner conn's bytes, count and error.
+
+   L3 (frames -> traces).  A stream's fate may depend only on the frames that concern it: its own
+   (same stream id) and GOAWAYs (`concerns`); `completions_of` are the traces a stream's builder handed over. *)
 From V Require Export C15_Model.
+Open Scope N_scope.
+
+Section L2.
+Variable dec : list bytes -> bytes -> option (list field).
+
+Fixpoint ft_feed (st : ftr) (chunks : list bytes) : ftr * list dframe :=
+  match chunks with
+  | [] => (st, [])
+  | c :: r =>
+    match ft_trace dec st c with
+    | (st1, o1) => match ft_feed st1 r with (st2, o2) => (st2, o1 ++ o2) end
+    end
+  end.
+
+(* the one-shot parse of a direction's whole byte stream *)
+Definition one_shot (isreq : bool) (stream : bytes) : list dframe := snd (ft_trace dec (ft_init isreq) stream).
+End L2.
+
+(* L1 *)
+Definition transparent_res (o : op) (r : opres) : Prop :=
+  match o, r with
+  | ORead data e, RRead data' e' => data' = data /\ e' = e
+  | OWrite data k e, RWrite given k' e' => given = data /\ k' = k /\ e' = e
+  | OClose e, RClose e' => e' = e
+  | OTimesUp _, RTimer => True
+  | _, _ => False
+  end.
+
+(* L3 *)
+Definition fsid (f : dframe) : option N :=
+  match f with
+  | FHeaders s _ _ | FData s _ _ | FRst s _ => Some s
+  | _ => None
+  end.
+
+Definition concerns (s : N) (e : bool * dframe) : bool :=
+  match snd e with
+  | FGoAway _ _ => true
+  | f => match fsid f with Some s' => s' =? s | None => false end
+  end.
+
+Definition completions_of (s : N) (acts : list cact) : list btrace :=
+  flat_map (fun a => match a with CComplete s' t => if s' =? s then [t] else [] | _ => [] end) acts.
+
+(* all frames of a connection, both directions, in the order they were completed *)
+Fixpoint sm_run (client : bool) (st : sm) (fs : list (bool * dframe)) : option (sm * list cact) :=
+  match fs with
+  | [] => Some (st, [])
+  | (isreq, f) :: r =>
+    match sm_frame client st isreq f with
+    | None => None
+    | Some (st1, a1) =>
+      match sm_run client st1 r with
+      | None => None
+      | Some (st2, a2) => Some (st2, a1 ++ a2)
+      end
+    end
+  end.
